@@ -517,6 +517,61 @@ def affine_conjugator(src_ops, tgt_ops, tgt_gens, dets=(1,)):
     return None
 
 
+LATTICE = {"P": [(0, 0, 0)], "A": [(0, 0, 0), (0, 6, 6)], "B": [(0, 0, 0), (6, 0, 6)], "C": [(0, 0, 0), (6, 6, 0)],
+           "I": [(0, 0, 0), (6, 6, 6)], "R": [(0, 0, 0), (8, 4, 4), (4, 8, 8)],
+           "F": [(0, 0, 0), (0, 6, 6), (6, 0, 6), (6, 6, 0)]}
+
+
+def op_mul(p, q):
+    return (mm(p[0], q[0]), tuple(a + b for a, b in zip(mv(p[0], q[1]), p[1])), p[2] != q[2])
+
+
+def eqv_mod(cent, p, q):
+    if p[0] != q[0] or p[2] != q[2]:
+        return False
+    d = tuple(a - b for a, b in zip(p[1], q[1]))
+    return any(all((x - l) % 12 == 0 for x, l in zip(d, lp)) for lp in LATTICE.get(cent, []))
+
+
+def pack_base(v, base):
+    n = 0
+    for x in reversed(v):
+        if not 0 <= x < base:
+            raise ValueError("digit out of range")
+        n = n * base + x
+    return n
+
+
+def closure_cert(cent, gens, ops):
+    """Right-multiplication table (row-major, base 128) and parent codes (base 1024); (0, 0) if not closed."""
+    n, m = len(ops), len(gens)
+    if m > 8 or n > 127:
+        return 0, 0
+    tbl = []
+    for o in ops:
+        for g in gens:
+            pr = op_mul(o, g)
+            j = next((j for j, s in enumerate(ops) if eqv_mod(cent, pr, s)), None)
+            if j is None:
+                return 0, 0
+            tbl.append(j)
+    par = [0] * n
+    for i in range(1, n):
+        code = next((ip * 8 + k for ip in range(i) for k in range(m) if tbl[ip * m + k] == i), None)
+        if code is None:
+            return 0, 0
+        par[i] = code
+    return pack_base(tbl, 128), pack_base(par, 1024)
+
+
+def conj_perm(src_rots, tgt_rots, P):
+    d = det(P)
+    Pi = tuple(d * x for x in adj(P))
+    idx = {r: j for j, r in enumerate(tgt_rots)}
+    perm = [idx.get(mm(mm(Pi, R), P), 127) for R in src_rots]
+    return pack_base(perm, 128)
+
+
 # ------------------------------------------------------------------------------------------------
 # invariants of finite integer matrix groups under conjugation in GL3(Z)
 
@@ -605,11 +660,21 @@ def compute_certs(pg):
         return json.load(open(cache))
     notes = []
     c = {}
-    # --- packed operation lists
+    # --- packed operation lists, closure certificates
     c["hallOps"] = [pack(o["ops"]) if o else 0 for o in houts]
     c["hallPrim"] = [pack(o["pops"]) if o else 0 for o in houts]
     c["magOps"] = [pack(o["ops"]) if o else 0 for o in mouts]
     c["magPrim"] = [pack(o["pops"]) if o else 0 for o in mouts]
+    hcl = [closure_cert(o["centering"], o["gens"], o["ops"]) if o else (0, 0) for o in houts]
+    mcl = [closure_cert(o["centering"], o["gens"], o["ops"]) if o else (0, 0) for o in mouts]
+    c["hallMul"], c["hallPar"] = [x[0] for x in hcl], [x[1] for x in hcl]
+    c["magMul"], c["magPar"] = [x[0] for x in mcl], [x[1] for x in mcl]
+    for e, x in zip(hall, hcl):
+        if x == (0, 0) and e["hall"] != 1:
+            notes.append(f"hall {e['hall']}: operation list is not closed under the generators modulo the centring lattice")
+    for e, x in zip(mh, mcl):
+        if x == (0, 0) and e["uni"] != 1:
+            notes.append(f"uni {e['uni']}: operation list is not closed under the generators modulo the centring lattice")
     c["magSet"] = [pack_nats(sorted(op_code(x) for x in o["pops"])) if o else 0 for o in mouts]
     # --- geometric class index of each arithmetic class
     c["arithGeo"] = [pg["geoNames"].index(a["geo"]) if a["geo"] in pg["geoNames"] else 99 for a in arith]
@@ -619,7 +684,7 @@ def compute_certs(pg):
     for k in range(1, 74):
         h = at(pg["arithRepHall"], k - 1)
         rep[k] = at(houts, h - 1) if h else None
-    ap = []
+    ap, aperm = [], []
     for e, o in zip(hall, houts):
         r = rep.get(e["arith"])
         P = None
@@ -629,14 +694,16 @@ def compute_certs(pg):
         if P is None:
             notes.append(f"hall {e['hall']}: no unimodular conjugator onto the representative of arithmetic class {e['arith']} found")
         ap.append(list(P) if P else [0] * 9)
+        aperm.append(conj_perm([x[0] for x in o["pops"]], [x[0] for x in r["pops"]], P) if P else 0)
     c["arithP"] = ap
+    c["arithPerm"] = aperm
     # --- (e2) invariant vectors of the 73 representatives
     c["arithInv"] = [inv_vector([x[0] for x in rep[k]["pops"]], pg["rotTypes"]) if rep[k] else [] for k in range(1, 74)]
     # --- (f) proper affine conjugator onto the first setting of the type (= Spglib setting)
     first = {}
     for e in hall:
         first.setdefault(e["number"], e["hall"])
-    sc = []
+    sc, scp = [], []
     for e, o in zip(hall, houts):
         h0 = first[e["number"]]
         o0 = houts[h0 - 1]
@@ -646,13 +713,16 @@ def compute_certs(pg):
         if res is None:
             notes.append(f"hall {e['hall']}: no proper affine conjugator onto hall {h0} found")
             sc.append([0] * 9 + [0, 0, 0, 12])
+            scp.append(0)
         else:
             P, p, den = res
             sc.append(list(P) + list(p) + [den])
+            scp.append(conj_perm([x[0] for x in o["pops"]], [x[0] for x in o0["pops"]], P))
     c["settingConj"] = sc
+    c["settingPerm"] = scp
     # --- C17: reference group of each magnetic entry onto the Standard setting of its number
     std = settings["STANDARD_HALL_NUMBERS"]
-    mc = []
+    mc, mcp = [], []
     for t, o in zip(mt, mouts):
         hs = at(std, t["number"] - 1)
         o0 = at(houts, hs - 1) if hs else None
@@ -667,10 +737,23 @@ def compute_certs(pg):
         if res is None:
             notes.append(f"uni {t['uni']}: reference group not conjugated onto hall {hs}")
             mc.append([0] * 9 + [0, 0, 0, 12])
+            mcp.append(0)
         else:
             P, p, den = res
             mc.append(list(P) + list(p) + [den])
+            mcp.append(conj_perm([x[0] for x in ref], [x[0] for x in o0["pops"]], P))
     c["magRefConj"] = mc
+    c["magRefPerm"] = mcp
+    def weight(o):
+        return len(o["ops"]) * (len(o["gens"]) + 3) + 10 if o else 10
+    c["hallWeight"] = [weight(o) for o in houts]
+    c["magWeight"] = [weight(o) for o in mouts]
+    c["arithWeight"] = [len(rep[k]["pops"]) + 2 if rep[k] else 2 for k in range(1, 74)]
+    nr, prev = 0, None
+    for t in mt:
+        if t["number"] != prev:
+            nr, prev = nr + 1, t["number"]
+    c["nRanges"] = nr
     c["notes"] = notes
     with open(cache, "w") as f:
         json.dump(c, f)
@@ -678,7 +761,29 @@ def compute_certs(pg):
 
 
 def chunk_defs(name, ty, rows, size=64):
-    return T.chunked(name, ty, rows, size)
+    """`def nameChunks : List (List ty)`: rows in chunks of 64, read with `Moyo.TableSpec.chunkGet`
+    (a 1651-element list built with `++` costs the kernel seconds per theorem; this costs microseconds)."""
+    nch = (len(rows) + size - 1) // size
+    out = [f"def {name}Chunks : List (List {ty}) := [\n"]
+    out.append(",\n".join("  [\n" + ",\n".join("  " + r for r in rows[c * size:(c + 1) * size]) + "\n  ]" for c in range(nch)))
+    out.append("\n]\n\n")
+    return "".join(out)
+
+
+def write_table_chunks(nhall, nmag):
+    """Chunk lists of the tables written by translate.py (same chunk size), for `chunkGet`."""
+    o = [T.HEADER.replace("translate.py", "translate_c16.py"), "import Moyo.Generated.HallTable\nimport Moyo.Generated.MagTable\n",
+         "namespace Moyo.Generated\n\n"]
+    for name, ty, n in (("hallTable", "HallEntry", nhall), ("magTypeTable", "MagTypeEntry", nmag), ("magHallTable", "MagHallEntry", nmag)):
+        nch = (n + 63) // 64
+        o.append(f"def {name}Chunks : List (List {ty}) := [" + ", ".join(f"{name}Chunk{c}" for c in range(nch)) + "]\n\n")
+    o.append("end Moyo.Generated\n")
+    text = "".join(o)
+    # imports must come first
+    lines = text.split("\n")
+    imports = [l for l in lines if l.startswith("import ")]
+    rest = [l for l in lines if not l.startswith("import ")]
+    T.write("TableChunks.lean", "\n".join(imports + rest))
 
 
 def lean_int_list(v):
@@ -692,15 +797,21 @@ def write_certs(c):
     o.append(chunk_defs("hallOps", "Nat", ["  " + str(x) for x in c["hallOps"]]))
     o.append("/-- packed `primitive_traverse` lists. -/\n")
     o.append(chunk_defs("hallPrim", "Nat", ["  " + str(x) for x in c["hallPrim"]]))
+    o.append("/-- closure certificates: right-multiplication tables (base 128) and parent codes (base 1024). -/\n")
+    o.append(chunk_defs("hallMul", "Nat", ["  " + str(x) for x in c["hallMul"]]))
+    o.append(chunk_defs("hallPar", "Nat", ["  " + str(x) for x in c["hallPar"]]))
     o.append("/-- index in `geoNames` of the geometric class of each arithmetic class. -/\n")
     o.append(f"def arithGeo : List Nat := {lean_nat_list(c['arithGeo'])}\n\n")
     o.append(f"def arithBravais : List Nat := {lean_nat_list(c['arithBravais'])}\n\n")
     o.append("/-- unimodular P with P⁻¹·G_prim·P = representative group of the entry's arithmetic class\n(packed, `Moyo.TableSpec.intsOfNat 9`). -/\n")
     o.append(chunk_defs("arithP", "Nat", ["  " + str(pack_ints(x)) for x in c["arithP"]]))
+    o.append("/-- position in the representative list of the conjugate of each primitive rotation (base 128). -/\n")
+    o.append(chunk_defs("arithPerm", "Nat", ["  " + str(x) for x in c["arithPerm"]]))
     o.append("/-- invariant vectors of the 73 representative groups. -/\n")
     o.append("def arithInv : List (List Nat) := [\n" + ",\n".join("  " + lean_nat_list(x) for x in c["arithInv"]) + "\n]\n\n")
     o.append("/-- proper affine (P, p/den) onto the first setting of the type: 9 entries of P, 3 numerators, den\n(packed, `Moyo.TableSpec.intsOfNat 13`). -/\n")
     o.append(chunk_defs("settingConj", "Nat", ["  " + str(pack_ints(x)) for x in c["settingConj"]]))
+    o.append(chunk_defs("settingPerm", "Nat", ["  " + str(x) for x in c["settingPerm"]]))
     o.append("end Moyo.Generated.C16\n")
     T.write("C16Certs.lean", "".join(o))
     o = [hdr, "namespace Moyo.Generated.C17\n\n"]
@@ -710,17 +821,105 @@ def write_certs(c):
     o.append(chunk_defs("magSet", "Nat", ["  " + str(x) for x in c["magSet"]]))
     o.append("/-- proper affine (P, p/den) carrying the reference group onto the Standard setting of `number`. -/\n")
     o.append(chunk_defs("magRefConj", "Nat", ["  " + str(pack_ints(x)) for x in c["magRefConj"]]))
+    o.append(chunk_defs("magRefPerm", "Nat", ["  " + str(x) for x in c["magRefPerm"]]))
+    o.append(chunk_defs("magMul", "Nat", ["  " + str(x) for x in c["magMul"]]))
+    o.append(chunk_defs("magPar", "Nat", ["  " + str(x) for x in c["magPar"]]))
     o.append("end Moyo.Generated.C17\n")
     T.write("C17Certs.lean", "".join(o))
+
+
+# ------------------------------------------------------------------------------------------------
+# part 4: chunk modules (kernel-decided theorems; deterministic text)
+
+CHUNK_HEADER = ("-- GENERATED by /verif/tools/translate_c16.py — only the chunk boundaries are generated; the statement is\n"
+                "-- always `<rows checker> lo n = true` for the Bool checkers of Moyo/Tables/Spec.lean.  Do not edit.\n")
+
+
+def greedy_chunks(weights, target, first=1):
+    """Consecutive ranges (lo, n) with total weight <= target (at least one row each)."""
+    res, lo, acc, n = [], first, 0, 0
+    for i, w in enumerate(weights):
+        if n > 0 and acc + w > target:
+            res.append((lo, n))
+            lo, acc, n = first + i, 0, 0
+        acc += w
+        n += 1
+    if n:
+        res.append((lo, n))
+    return res
+
+
+def write_module(rel, text):
+    p = os.path.join(LEAN, rel)
+    os.makedirs(os.path.dirname(p), exist_ok=True)
+    old = open(p).read() if os.path.exists(p) else None
+    if old != text:
+        with open(p, "w") as f:
+            f.write(text)
+        print(f"translate_c16.py: wrote {rel}")
+
+
+def assemble(kind, checker, row_fn, chunks, total, first=1):
+    """Module `Moyo/Tables/<Kind>All.lean`: ∀ row in [first, total], row checker = true."""
+    mods = [f"Moyo.Tables.{kind}C{c:03d}" for c in range(len(chunks))]
+    o = [CHUNK_HEADER, "import Moyo.Proofs.TablesBasic\n"] + [f"import {m}\n" for m in mods]
+    o.append("namespace Moyo.Tables\n\n")
+    o.append(f"/-- Every row `{first} ≤ i ≤ {total}` passes `{row_fn}` (assembled from the {len(chunks)} chunk theorems). -/\n")
+    o.append(f"theorem {kind.lower()}_rows : ∀ i : Nat, {first} ≤ i → i ≤ {total} → {row_fn} i = true := by\n  intro i h1 h2\n")
+    for c, (lo, n) in enumerate(chunks):
+        last = c == len(chunks) - 1
+        if not last:
+            o.append(f"  by_cases c{c} : i < {lo + n}\n  · exact rows_of_all {kind.lower()}_c{c:03d} i (by omega) (by omega)\n")
+        else:
+            o.append(f"  exact rows_of_all {kind.lower()}_c{c:03d} i (by omega) (by omega)\n")
+    o.append("\nend Moyo.Tables\n")
+    text = "".join(o)
+    lines = text.split("\n")
+    head = [l for l in lines if l.startswith("-- ")]
+    imports = [l for l in lines if l.startswith("import ")]
+    rest = [l for l in lines if not l.startswith("import ") and not l.startswith("-- ")]
+    write_module(f"Moyo/Tables/{kind}All.lean", "\n".join(imports + head + rest))
+
+
+def write_chunk_modules(c):
+    os.makedirs(TABLES, exist_ok=True)
+    plan = [("Hall", "hallRowsOK", "hallRowOK", greedy_chunks(c["hallWeight"], 900), len(c["hallWeight"]), 1),
+            ("Mag", "magRowsOK", "magRowOK", greedy_chunks(c["magWeight"], 900), len(c["magWeight"]), 1),
+            ("Arith", "arithRowsOK", "arithRowOK", greedy_chunks(c["arithWeight"], 100), len(c["arithWeight"]), 1),
+            ("Range", "magRangesOK", "magRangeOK", greedy_chunks([1] * c["nRanges"], 46), c["nRanges"], 1)]
+    keep = {"Spec.lean"}
+    summary = {}
+    for kind, checker, row_fn, chunks, total, first in plan:
+        for k, (lo, n) in enumerate(chunks):
+            name = f"{kind}C{k:03d}"
+            keep.add(name + ".lean")
+            text = ("import Moyo.Tables.Spec\n" + CHUNK_HEADER + "set_option maxRecDepth 1000000\nnamespace Moyo.Tables\n\n"
+                    f"/-- Rows {lo}..{lo + n - 1}: `{row_fn}` holds (decided by the kernel). -/\n"
+                    f"theorem {kind.lower()}_c{k:03d} : {checker} {lo} {n} = true := by decide +kernel\n\nend Moyo.Tables\n")
+            write_module(f"Moyo/Tables/{name}.lean", text)
+        assemble(kind, checker, row_fn, chunks, total, first)
+        keep.add(f"{kind}All.lean")
+        summary[kind] = chunks
+    keep |= {"Misc.lean"}
+    for f in os.listdir(TABLES):
+        if f.endswith(".lean") and f not in keep and re.fullmatch(r"(Hall|Mag|Arith|Range)C\d+\.lean", f):
+            os.unlink(os.path.join(TABLES, f))
+            print(f"translate_c16.py: removed stale {f}")
+    with open(os.path.join(WORK, "chunks.json"), "w") as f:
+        json.dump(summary, f)
+    return summary
 
 
 def main():
     pg = translate_point_group()
     write_point_group(pg)
+    tabs = load_tables()
+    write_table_chunks(len(tabs[0]), len(tabs[3]))
     if "--tables-only" in sys.argv:
         return
     c = compute_certs(pg)
     write_certs(c)
+    write_chunk_modules(c)
     for n in c["notes"]:
         print("translate_c16.py: NOTE " + n)
 
